@@ -670,7 +670,12 @@ class Interp:
         items = []
         for e in node.elts:
             if isinstance(e, ast.Starred):
-                items.extend(self.concrete_items(self.eval(e.value), e))
+                sv = self.eval(e.value)
+                segs = self.segments(sv, e)
+                if not all(s_[0] == "one" for s_ in segs):
+                    # a tuple with a part of unknown length (a stored tuple read back from state the path knows nothing of)
+                    return Sym(("tuple-with-unknown-part", tuple(desc(x) for x in items), desc(sv)))
+                items.extend(s_[1] for s_ in segs)
             else:
                 items.append(self.eval(e))
         return TupleV(tuple(items))
@@ -2449,7 +2454,9 @@ class Interp:
         if isinstance(v, ExcV):
             return v
         if isinstance(v, ExtV):
-            return ExcV(v.name.rsplit(".", 1)[-1])
+            from . import models as M
+
+            return ExcV(M.canon_exc_name(v.name))
         if isinstance(v, ClassV):
             return ExcV(v.qualname)
         if isinstance(v, Sym):
@@ -2860,7 +2867,7 @@ class Interp:
         types = h.type.elts if isinstance(h.type, ast.Tuple) else [h.type]
         for t in types:
             tv = self.eval(t)
-            tname = tv.name.rsplit(".", 1)[-1] if isinstance(tv, ExtV) else (tv.qualname if isinstance(tv, ClassV) else None)
+            tname = M.canon_exc_name(tv.name) if isinstance(tv, ExtV) else (tv.qualname if isinstance(tv, ClassV) else None)
             if tname is None:
                 continue
             if M.exc_isinstance(self, exc.cls, tname):
@@ -2870,7 +2877,7 @@ class Interp:
     def exec_FunctionDef(self, node):
         # a nested function: a closure over the frame it is written in (called like a lambda with statements); generators,
         # decorated ones and ones that rebind outer names stay opaque callables
-        plain = not node.decorator_list
+        plain = not node.decorator_list and all(isinstance(d, ast.Constant) for d in list(node.args.defaults) + [d for d in node.args.kw_defaults if d is not None])
         todo = list(node.body)
         while todo and plain:
             n = todo.pop()
